@@ -481,7 +481,7 @@ class GeneInfo:
         self.feature_attributes = defaultdict(str)
         for gene_db in self.gene_db_list:
             for attr in gene_db.attributes.keys():
-                if attr in ['gene_id', 'ID', 'level', 'Parent']:
+                if attr in ['gene_id', 'ID', 'level', 'Parent', 'transcripts']:
                     continue
                 if gene_db.attributes[attr]:
                     self.feature_attributes[gene_db.id] += '%s "%s"; ' % (attr, gene_db.attributes[attr][0])
